@@ -126,8 +126,8 @@ CacheInputs ==
   {MkCall("sf", kind, IF kind \in {"path", "pathlike", "relpath"} THEN 1 ELSE 0, IF kind \in {"path", "pathlike", "relpath"} THEN <<>> ELSE M_PDF,
           FALSE, 0, cond, em, lmm, mc[1], mc[2], xsf, rclass, fw, rq, TRUE) :
      kind \in (IF Deep THEN {"path", "pathlike", "relpath", "bytesio", "binfile", "pipe"} ELSE {"path", "bytesio", "binfile"}),
-     cond \in Bools, em \in {"auto", "off", "given"}, lmm \in (IF Deep THEN {"none", "int", "float", "aware"} ELSE {"none", "float"}),
-     mc \in MaChoices, xsf \in Bools, rclass \in (IF Deep THEN {"default", "sub"} ELSE {"default"}),
+     cond \in Bools, em \in {"auto", "off", "given"}, lmm \in (IF Deep THEN {"none", "float", "aware"} ELSE {"none", "float"}),
+     mc \in MaChoices, xsf \in Bools, rclass \in {"default"},
      fw \in (IF Deep THEN Bools ELSE {FALSE}), rq \in (IF Deep THEN Requests ELSE RequestsSmall)}
 \* family "errors": every kind x mimetype given or not x name given or not (incl. CR / LF) x attachment x X-Sendfile;
 \* send_from_directory with a missing file
@@ -408,6 +408,9 @@ ASSUME LawDates == DatesAgree
 
 \* ---- export: one row per call with the model's final observation
 NoNext == FALSE /\ UNCHANGED vars
-Row == [api |-> IF IsSf THEN c.api ELSE "sdm", c |-> c, exp |-> o, rq |-> c.rq]
+\* (the call without the parts the replayer takes from its own tree: bytes, stat, clock)
+CallKeys == DOMAIN c \ {"data", "size", "mtime", "mtime_repr", "t_before", "t_after", "pg_p", "pg", "given"}
+ObsKeys == DOMAIN o \ {"open_now", "user_open"}
+Row == [api |-> IF IsSf THEN c.api ELSE "sdm", c |-> [k \in CallKeys |-> c[k]], exp |-> [k \in ObsKeys |-> o[k]]]
 Export == IF Final THEN PrintT(ToJson(Row)) ELSE TRUE
 =============================================================================
